@@ -19,7 +19,7 @@ pub fn def() -> PropertyDef {
         rule: "matrices: type catalogue {Unit, Bool, Tri, Option Bool, Bool x Bool, Bool x Bool x Bool, (Bool x Bool) x Bool, named pair, data with \
                product payload, data nested in data, Bool x Option Bool, Nat, List Bool}; all patterns up to constructor depth 2-3 over each; all arm \
                lists of length <= 3 (<= 2 where more than 40 patterns) plus the empty match — thorough enumerates them all, quick a seeded slice; \
-               random: deeper random matrices (<= 6 arms, depth <= 4); comatch: all destructor multisets of size <= 4 over codata with <= 3 \
+               random: deeper random matrices (<= 6 arms, depth <= 4); wide: data types with 10, 12 and 17 constructors (alone, under an option, in products) with an almost complete arm list (0-2 arms removed, biased to late constructors); comatch: all destructor multisets of size <= 4 over codata with <= 3 \
                destructors. Checks: accepted <=> exhaustive by brute force; every reported missing pattern has an instance no arm matches; an \
                accepted match takes the reference arm for every enumerated value at run time; comatch accepted <=> each destructor exactly \
                once and the reported missing / duplicate sets are the true ones. distinct = (type, arm list) / destructor multiset; non-trivial = \
@@ -55,7 +55,123 @@ fn decls() -> Vec<Decl> {
         Decl { name: "Outer", ctors: vec![("+L", T::Data(2)), ("+R", T::Data(1))] },
         Decl { name: "Nat", ctors: vec![("+Z", T::Unit), ("+S", T::Data(5))] },
         Decl { name: "ListB", ctors: vec![("+Nil", T::Unit), ("+Cons", T::Prod(vec![b(), T::Data(6)]))] },
+        // wide types (only used by the `wide` family): many constructors, a few with payloads
+        Decl {
+            name: "Wide12",
+            ctors: vec![
+                ("+W0", T::Unit), ("+W1", T::Unit), ("+W2", T::Unit), ("+W3", b()), ("+W4", T::Unit), ("+W5", T::Unit), ("+W6", T::Unit),
+                ("+W7", T::Unit), ("+W8", T::Unit), ("+W9", T::Unit), ("+W10", T::Data(2)), ("+W11", T::Unit),
+            ],
+        },
+        Decl {
+            name: "Wide10",
+            ctors: vec![
+                ("+X0", T::Unit), ("+X1", T::Unit), ("+X2", T::Unit), ("+X3", T::Unit), ("+X4", T::Unit), ("+X5", T::Unit), ("+X6", T::Unit),
+                ("+X7", T::Unit), ("+X8", T::Unit), ("+X9", T::Unit),
+            ],
+        },
+        Decl { name: "OptWide", ctors: vec![("+NoneW", T::Unit), ("+SomeW", T::Data(8))] },
+        Decl {
+            name: "Wide17",
+            ctors: vec![
+                ("+Y0", T::Unit), ("+Y1", T::Unit), ("+Y2", T::Unit), ("+Y3", T::Unit), ("+Y4", T::Unit), ("+Y5", T::Unit), ("+Y6", T::Unit),
+                ("+Y7", T::Unit), ("+Y8", b()), ("+Y9", T::Unit), ("+Y10", T::Unit), ("+Y11", T::Unit), ("+Y12", T::Unit), ("+Y13", T::Unit),
+                ("+Y14", T::Unit), ("+Y15", T::Unit), ("+Y16", b()),
+            ],
+        },
     ]
+}
+
+fn wide_catalogue() -> Vec<(&'static str, T)> {
+    let b = || T::Data(0);
+    vec![
+        ("Wide12", T::Data(7)),
+        ("Wide10", T::Data(8)),
+        ("OptWide", T::Data(9)),
+        ("Wide17", T::Data(10)),
+        ("Wide10xBool", T::Prod(vec![T::Data(8), b()])),
+        ("BoolxWide12", T::Prod(vec![b(), T::Data(7)])),
+        ("OptWidexBool", T::Prod(vec![T::Data(9), b()])),
+    ]
+}
+
+/// A complete cover of `t` (one pattern per constructor path, payloads split with probability 1/2).
+fn cover(rng: &mut Rng, t: &T, ds: &[Decl], depth: usize) -> Vec<P> {
+    if depth == 0 {
+        return vec![P::Wild];
+    }
+    match t {
+        | T::Unit => vec![if rng.chance(1, 2) { P::Unit } else { P::Wild }],
+        | T::Data(d) => {
+            let mut out = Vec::new();
+            for (c, (_, payload)) in ds[*d].ctors.iter().enumerate() {
+                let inner = if *payload == T::Unit {
+                    vec![if rng.chance(1, 2) { P::Unit } else { P::Wild }]
+                } else if rng.chance(1, 2) {
+                    cover(rng, payload, ds, depth - 1)
+                } else {
+                    vec![P::Wild]
+                };
+                for q in inner {
+                    out.push(P::Ctor(*d, c, Box::new(q)));
+                }
+            }
+            out
+        }
+        | T::Prod(items) => {
+            // split on one component, the others stay wild (sometimes on a second one as well)
+            let k = rng.below(items.len());
+            let mut out = Vec::new();
+            for q in cover(rng, &items[k], ds, depth) {
+                let others: Vec<Vec<P>> = items
+                    .iter()
+                    .enumerate()
+                    .map(|(i, it)| if i == k { vec![q.clone()] } else if rng.chance(1, 4) { cover(rng, it, ds, 1) } else { vec![P::Wild] })
+                    .collect();
+                let mut rows: Vec<Vec<P>> = vec![vec![]];
+                for choice in others {
+                    rows = rows.into_iter().flat_map(|r| choice.iter().map(move |c| { let mut r2 = r.clone(); r2.push(c.clone()); r2 })).collect();
+                }
+                out.extend(rows.into_iter().map(P::Tuple));
+            }
+            out
+        }
+        | T::Named(items) => vec![P::Tuple(items.iter().map(|_| P::Wild).collect())],
+    }
+}
+
+/// Wide types: an almost complete list of arms (0..2 arms removed, sometimes shuffled, rarely a catch-all).
+fn run_wide(cfg: &Cfg, index: u64, stats: &mut Stats) {
+    let ds = decls();
+    let mut rng = Rng::for_case(cfg.seed, "C04/wide", index);
+    let cat = wide_catalogue();
+    let (tname, t) = &cat[rng.below(cat.len())];
+    let mut arms = cover(&mut rng, t, &ds, 3);
+    let removed = match rng.below(6) {
+        | 0 | 1 => 0,
+        | 2 | 3 | 4 => 1,
+        | _ => 2,
+    };
+    for _ in 0..removed {
+        if arms.len() > 1 {
+            // removals are biased towards the end of the declaration order
+            let k = if rng.chance(1, 2) { arms.len() - 1 - rng.below(arms.len().min(4)) } else { rng.below(arms.len()) };
+            arms.remove(k);
+        }
+    }
+    if rng.chance(1, 4) {
+        rng.shuffle(&mut arms);
+    }
+    if rng.chance(1, 12) {
+        arms.push(P::Wild);
+    }
+    let arms_text = arms.iter().map(|p| pattern_text(p, t, &ds)).collect::<Vec<_>>().join(" | ");
+    stats.nontrivial(format!("{}/{}", tname, arms_text).as_bytes());
+    stats.cover("wide_types", tname);
+    stats.cover("wide_arm_counts", &arms.len().to_string());
+    if let Some(found) = judge(tname, t, &arms, stats) {
+        report(stats, "wide", index, tname, arms_text, found);
+    }
 }
 
 fn catalogue() -> Vec<(&'static str, T, usize)> {
@@ -336,6 +452,7 @@ fn generators(cfg: &Cfg) -> Vec<Generator> {
         Generator { name: "matrices", total: cfg.tier.pick(5_000.min(total), total), run: run_matrix, case_cpu_limit_s: 120 },
         Generator { name: "random", total: cfg.tier.pick(1_500, 50_000), run: run_random, case_cpu_limit_s: 120 },
         Generator { name: "comatch", total: comatch_cases().len() as u64, run: run_comatch, case_cpu_limit_s: 60 },
+        Generator { name: "wide", total: cfg.tier.pick(600, 20_000), run: run_wide, case_cpu_limit_s: 120 },
     ]
 }
 
